@@ -1,5 +1,5 @@
 """Record PySpark 3.5.9's column names for C10 programs (run manually; needs a JVM, ~10 min):
-   PYSPARK_PYTHON=/venv/bin/python PYTHONPATH=/verif /venv/bin/python oracle/record_c10.py [n_programs | --exotic-only]
+   PYSPARK_PYTHON=/venv/bin/python PYTHONPATH=/verif /venv/bin/python oracle/record_c10.py [n_programs] [--append] | --exotic-only
 Per step: df.columns and the schema's field names; at the last step also Row.__fields__ and toPandas().columns.
 The registered check only reads oracle/c10_pyspark.jsonl (and re-runs the same programs on sqlframe)."""
 import json, os, random, sys, warnings
@@ -38,11 +38,18 @@ if "--exotic-only" in sys.argv:
     spark.stop()
     sys.exit(0)
 
+APPEND = "--append" in sys.argv      # keep what is recorded, add the CORPUS entries not yet present + N fresh programs
+done = set()
+if APPEND and os.path.exists("/verif/oracle/c10_pyspark.jsonl"):
+    for line in open("/verif/oracle/c10_pyspark.jsonl"):
+        r = json.loads(line)
+        done.add(json.dumps([r["names"], r["ops"]], ensure_ascii=False))
 progs = list(c10.CORPUS)
-for seed in (1010, 1011):
+for seed in ((1012, 1013) if APPEND else (1010, 1011)):
     g = c10.Gen(random.Random(seed))
     progs += [g.program(4) for _ in range(N // 2)]
-out = open("/verif/oracle/c10_pyspark.jsonl", "w")
+progs = [p for p in progs if json.dumps([p["names"], json.loads(json.dumps(p["ops"]))], ensure_ascii=False) not in done]
+out = open("/verif/oracle/c10_pyspark.jsonl", "a" if APPEND else "w")
 n = nerr = 0
 for p in progs:
     steps = []
